@@ -333,4 +333,26 @@ theorem source_msb_is_model (n : Int) (hn : U32 n) (h0 : n ≠ 0) :
 example : Generated.MostSignificantBit 255 = 7 := by
   rw [source_msb_is_model _ (by decide) (by decide)]; decide
 
+open Generated in
+/-- `PredictionSchemeNormalOctahedronCanonicalizedDecodingTransform::ComputeOriginalValue(Point2, Point2)` — the whole
+    function, with its calls of `IsInDiamond`, `InvertDiamond`, `IsInBottomLeft`, `GetRotationCount`, `RotatePoint`,
+    `AddAsUnsigned`, `ModMax` — is `Octa.decOrig`, for every prediction on the grid and every correction -/
+theorem source_octaDecode_is_model (t : OctaT) (pred corr : Int × Int) (hwf : t.WF) (hg : Octa.inGrid t pred) :
+    PredictionSchemeNormalOctahedronCanonicalizedDecodingTransform.ComputeOriginalValue (ofOctaT t) pred corr =
+      Octa.decOrig t pred corr := octaDecode_eq_model t pred corr hwf hg
+example : Generated.PredictionSchemeNormalOctahedronCanonicalizedDecodingTransform.ComputeOriginalValue
+    (Generated.ofOctaT (Octa.ofCenter 127)) (200, 13) (7, 250) = Octa.decOrig (Octa.ofCenter 127) (200, 13) (7, 250) :=
+  source_octaDecode_is_model _ _ _ (by unfold OctaT.WF Octa.ofCenter; decide) (by unfold Octa.inGrid Octa.ofCenter; decide)
+
+open Generated in
+/-- `PredictionSchemeNormalOctahedronCanonicalizedEncodingTransform::ComputeCorrection(Point2, Point2)` is
+    `Octa.encCorr`, for every original and prediction on the grid -/
+theorem source_octaEncode_is_model (t : OctaT) (orig pred : Int × Int) (hwf : t.WF)
+    (ho : Octa.inGrid t orig) (hg : Octa.inGrid t pred) :
+    PredictionSchemeNormalOctahedronCanonicalizedEncodingTransform.ComputeCorrection (ofOctaT t) orig pred =
+      Octa.encCorr t orig pred := octaEncode_eq_model t orig pred hwf ho hg
+example : Generated.PredictionSchemeNormalOctahedronCanonicalizedEncodingTransform.ComputeCorrection
+    (Generated.ofOctaT (Octa.ofCenter 127)) (3, 77) (200, 13) = Octa.encCorr (Octa.ofCenter 127) (3, 77) (200, 13) :=
+  source_octaEncode_is_model _ _ _ (by unfold OctaT.WF Octa.ofCenter; decide) (by unfold Octa.inGrid Octa.ofCenter; decide) (by unfold Octa.inGrid Octa.ofCenter; decide)
+
 end Draco
